@@ -323,8 +323,15 @@ impl<const BITS: usize, const LIMBS: usize> Uint<BITS, LIMBS> {
             r.limbs[i + limbs] = (x << bits) | carry;
             carry = (x >> (word_bits - bits - 1)) >> 1;
         }
+        // The bits shifted out are the final carry, the limbs above the
+        // shifted window and the bits above `BITS` in the last limb.
+        let mut overflow = carry != 0;
+        for i in Self::LIMBS - limbs..Self::LIMBS {
+            overflow |= self.limbs[i] != 0;
+        }
+        overflow |= r.limbs[Self::LIMBS - 1] > Self::MASK;
         r.apply_mask();
-        (r, carry != 0)
+        (r, overflow)
     }
 
     /// Left shift by `rhs` bits.
@@ -387,7 +394,13 @@ impl<const BITS: usize, const LIMBS: usize> Uint<BITS, LIMBS> {
             r.limbs[LIMBS - 1 - i - limbs] = (x >> bits) | carry;
             carry = (x << (word_bits - bits - 1)) << 1;
         }
-        (r, carry != 0)
+        // The bits shifted out are the final carry and the limbs below the
+        // shifted window.
+        let mut overflow = carry != 0;
+        for i in 0..limbs {
+            overflow |= self.limbs[i] != 0;
+        }
+        (r, overflow)
     }
 
     /// Right shift by `rhs` bits.
